@@ -6,6 +6,7 @@ From InvokeVerif Require Export Model.ReadLoopModel Spec.C02Spec.
 
 Record case := mk {
   c_in : run_in;
+  c_done : bool;      (* run()/join() came back with a Result (or a Failure carrying one) in time *)
   c_obs : run_obs
 }.
 
@@ -20,14 +21,14 @@ Definition obs_eqb (a b : run_obs) : bool :=
   text_eqb (ro_out_stream a) (ro_out_stream b) && text_eqb (ro_err_stream a) (ro_err_stream b) &&
   texts_eqb (ro_out_submits a) (ro_out_submits b) && texts_eqb (ro_err_submits a) (ro_err_submits b).
 
-Definition corr (c : case) : bool := obs_eqb (run_model (c_in c)) (c_obs c).
+Definition corr (c : case) : bool := c_done c && obs_eqb (run_model (c_in c)) (c_obs c).
 
 Definition spec_in (i : run_in) (o : run_obs) : bool :=
   spec_ok (ri_enc i) (stream_bytes (ri_out i)) (stream_bytes (ri_err i)) (to_req (ri_hide i))
           (ri_async i) (ri_out_given i) (ri_err_given i) (ri_pty i)
           (ro_stdout o) (ro_stderr o) (ro_out_stream o) (ro_err_stream o).
 
-Definition spec (c : case) : bool := spec_in (c_in c) (c_obs c).
+Definition spec (c : case) : bool := c_done c && spec_in (c_in c) (c_obs c).
 
 (** Would the repaired loop have produced an acceptable run?  (Reported in the
     evidence; not part of the verdict.) *)
